@@ -26,7 +26,10 @@ CONSTANTS NW,        \* number of wakers; W == 1..NW
           Target,    \* sequence over W (a function G -> W); set through MCSleep
           MaxG,      \* operations per waker goroutine
           MaxF,      \* fetches of the sleeper
-          PreAttach  \* TRUE: all wakers are attached in the initial state
+          PreAttach, \* TRUE: all wakers are attached in the initial state
+          ClearOK,   \* FALSE: the waker goroutines only Assert (smaller graphs for the same-waker races)
+          PreQ       \* wakers 1..PreQ are already asserted and queued (by completed Asserts, in order) in the
+                     \* initial state; needs PreAttach
 W == 1..NW
 G == 1..Len(Target)
 T(g) == Target[g]
@@ -46,13 +49,13 @@ Rev(s) == [i \in 1..Len(s) |-> s[Len(s) + 1 - i]]
 RangeOf(s) == {s[i] : i \in DOMAIN s}
 InAssert(g) == pcG[g] \in {"A1", "A2", "E1", "E2", "E3", "E4", "E5"}
 
-Init == /\ ws = [w \in W |-> IF PreAttach THEN "slp" ELSE "nil"]
-        /\ shared = <<>> /\ local = <<>> /\ waitingG = 0 /\ parked = FALSE
+Init == /\ ws = [w \in W |-> IF w <= PreQ THEN "asserted" ELSE IF PreAttach THEN "slp" ELSE "nil"]
+        /\ shared = [i \in 1..PreQ |-> PreQ + 1 - i] /\ local = <<>> /\ waitingG = 0 /\ parked = FALSE
         /\ pcF = "idle" /\ fblock = FALSE /\ fw = 0 /\ fops = 0
         /\ nadd = (IF PreAttach THEN NW ELSE 0) /\ sp = "nil" /\ sv = 0
         /\ dq = <<>> /\ pend = {} /\ inDone = FALSE
         /\ pcG = [g \in G |-> "idle"] /\ gv = [g \in G |-> 0] /\ gg = [g \in G |-> 0] /\ gops = [g \in G |-> 0]
-        /\ ghost = [w \in W |-> FALSE] /\ complete = [w \in W |-> FALSE] /\ viol = {}
+        /\ ghost = [w \in W |-> w <= PreQ] /\ complete = [w \in W |-> w <= PreQ] /\ viol = {}
 
 \* ------------------------------------------------------------------ sleeper
 \* Done's loop "for pending != nil { pulled := nextWaker(true); remove }" as far as it runs without atomic operations
@@ -160,7 +163,7 @@ AssertRet(g) == complete' = [complete EXCEPT ![T(g)] = ghost'[T(g)]]
 StartAssert(g) == /\ pcG[g] = "idle" /\ gops[g] < MaxG
                   /\ pcG' = [pcG EXCEPT ![g] = "A1"] /\ gops' = [gops EXCEPT ![g] = @ + 1]
                   /\ UNCHANGED <<mem, slp, gv, gg, hist>>
-StartClear(g) == /\ pcG[g] = "idle" /\ gops[g] < MaxG
+StartClear(g) == /\ ClearOK /\ pcG[g] = "idle" /\ gops[g] < MaxG
                  /\ pcG' = [pcG EXCEPT ![g] = "C1"] /\ gops' = [gops EXCEPT ![g] = @ + 1]
                  /\ UNCHANGED <<mem, slp, gv, gg, hist>>
 GA1(g) == /\ pcG[g] = "A1"                                \* load w.s
